@@ -473,7 +473,22 @@ def materialize(spec, root):
             data += b'"' + b'x,1\n' * 40000
         with open(p, 'wb') as f:
             f.write(data)
-    return os.path.join(broot, 'config')
+    cfg = os.path.join(broot, 'config')
+    _CWD.pop(cfg, None)
+    if spec.get('cwd') == 'decoy':
+        # the command is started from ANOTHER directory (a sibling budget) that holds different files at the same relative
+        # paths as every source of this budget, present or not
+        other = os.path.join(root, 'sibling')
+        for s in spec['sources']:
+            decoy = copy.deepcopy(s)
+            decoy['rows'] = [dict(r_, q=(r_['q'] or 4) + 800, desc='SIBLING ' + r_['desc']) for r_ in s['rows']][:2] or \
+                            [simple_row('2025-01-02', 'SIBLING ROW', 804)]
+            dp = os.path.join(other, s['file'])
+            os.makedirs(os.path.dirname(dp), exist_ok=True)
+            with open(dp, 'wb') as f:
+                f.write(file_text(decoy).encode('utf-8'))
+        _CWD[cfg] = other
+    return cfg
 
 
 def simple_source(name, file, rows, **kw):
@@ -502,6 +517,11 @@ def csv_expect(spec):
     for d in descs:
         res = (None, 'Unknown', 'Unknown')
         for pat, merch, cat, sub, _tags in spec['rules']['csv']:
+            if (' and ' in pat or ' or ' in pat or pat.startswith('(') or pat.startswith('field.')
+                    or re.match(r'^(contains|normalized|anyof|startswith|fuzzy|regex|extract|split|substring|trim|exists)\s*\(', pat)
+                    or re.match(r'^(amount|month|year|day|source|description)\s*[<>=!]', pat)):
+                res = None      # written as an expression (case-sensitive keywords): not a plain pattern
+                break
             base = pat
             mod = pat.endswith(']') and '[' in pat
             if mod:
@@ -548,9 +568,13 @@ def consistent(s):
 
 
 # ------------------------------------------------------------------ running the real CLI (fresh process per command)
+_CWD = {}     # config dir -> working directory the commands on that budget are started from (spec['cwd'] == 'decoy')
+
+
 def run_cli(args, timeout=120):
+    cwd = next((_CWD[a] for a in args if a in _CWD), None)
     p = subprocess.run([PY, '-m', 'tally'] + list(args), capture_output=True, text=True, env=env_impl(), timeout=timeout,
-                       stdin=subprocess.DEVNULL)
+                       stdin=subprocess.DEVNULL, cwd=cwd)
     return p.returncode, p.stdout, p.stderr
 
 
@@ -742,6 +766,8 @@ def toggle(spec, kind, i, rnd):
             changed = True
         if not changed:
             return None
+    elif kind == 'cwd':
+        b['cwd'] = None if b.get('cwd') else 'decoy'
     elif kind == 'layout':
         b['layout'] = None if b.get('layout') else 'symlink-decoy'
     elif kind == 'reverse':
